@@ -93,3 +93,26 @@ claim("C09", category="fault_enumeration", engine="bytemc + crashmc",
            "version or decode (CRC included) to one of the complete new versions, and all copies are identical after success.",
       note="new-version identity is the decoded model without inode numbers (inode numbers of data files differ between two materialisations of one state)",
       design="3 C09")
+
+claim("C12", category="model_checking", engine="arraymc (monitor)",
+      technique="exhaustive command x option x array-condition sweep on the real CLI with a permission-matrix monitor over snapshot bracket and syscall trace",
+      text="Every entry of a 39-command/option menu (status, diff, list, dup, devices, check with -a/-f/-d/-m/-e/-i, scrub plans, sync with "
+           "-F/-R/-h/-N/-B/-E/--force-zero/-U/-D, fix with -f/-d/-m/-e/-i/-d parity, pool, touch, rehash; sync/scrub/fix/check also threaded) is run "
+           "on six array conditions (healthy, unsynced, silently damaged, data disk lost, parity lost, interrupted sync) in 2 (quick) / 4 (thorough) "
+           "configurations. Both the before/after snapshot of the whole lab and the trace of state-changing system calls must respect the matrix: "
+           "read-only commands nothing; scrub/rehash content only; sync content+parity and never below a data disk; fix never content, only data "
+           "paths it tags fixed/recovered/unrecoverable (and their hard links / parent dirs) and only parity blocks it tags parity_fixed; pool only "
+           "the pool dir; touch only the sub-second mtime of files whose recorded nsec is zero plus content. Allowed always: log, lock file.",
+      note="the monitor (vp/perm.py) is also usable on every run of the other checks; 'zero time-stamps' = recorded sub-second part zero",
+      design="3 C12")
+
+claim("C14", category="fault_enumeration", engine="arraymc + crashmc",
+      technique="exhaustive trigger enumeration (per disk / level / setting, with and without pending changes and override) plus pausing a first command at every state-changing call for the lock",
+      text="Triggers: all files of a disk missing / all rewritten / mixed (per disk), a non-empty file now empty (per disk), parity shortened by a "
+           "block (per level, overrides -F and -R), blocksize and hashsize changed in the configuration, a recorded disk dropped from it - each alone "
+           "and combined with ordinary pending changes. sync must exit failing, leave every content and parity file byte-identical and issue no "
+           "write/rename/truncate on them (trace); with the override or the setting restored the same sync must succeed and C11's post-sync oracle "
+           "hold. Lock: sync, scrub, fix and touch are paused (LD_PRELOAD) at EVERY state-changing call k>=1 while a second sync is attempted: it "
+           "must be refused with 'already in use' and write nothing; after release the first command completes and sync proceeds.",
+      note="SIGABRT from the tool's own os_abort counts as a failing refusal (v2 content + reduced hashsize in the configuration ends that way)",
+      design="3 C14")
